@@ -81,6 +81,14 @@ def import_lines(rng, packages, ctypes, names):
 
 
 def config_scenario(rng, opts=None):
+    while True:
+        try:
+            return _config_scenario(rng, opts)
+        except G.Unsatisfiable:
+            continue
+
+
+def _config_scenario(rng, opts=None):
     o = {"imports": 0.5, "callbacks": True, "ncuts": None, "std_only": False,
          "handlers": False, "decoys": False}
     o.update(opts or {})
